@@ -157,6 +157,55 @@ theorem reencode_fixed_point_ticket (fuel : Nat) (bs dk : Bytes) (cs : List (Cav
       ∀ fuel' rest, fuel + 2 ≤ fuel' → decodeTicket fuel' (encTicket dk cs ++ rest) = some (dk, cs) :=
   reencode_ticket fuel bs dk cs h henc
 
+/-! ### the byte string standing on its own: `DecodeCaveats` also accepts an outermost `nil` -/
+
+/-- everything `decodeCavs` accepts, `DecodeCaveats` on the bare byte string accepts with the same result -/
+theorem decodeCavsTopLevel_of_decodeCavs (fuel : Nat) (bs : Bytes) (cs : List (Cav Bytes))
+    (h : decodeCavs fuel bs = some cs) : decodeCavsTopLevel fuel bs = some cs := by
+  unfold decodeCavsTopLevel
+  split
+  · next r hd =>
+    unfold decodeCavs at h
+    rw [hd] at h
+    simp [Dec.cavsOfV, Dec.fail, Except.toOption] at h
+  · exact h
+
+/-- and the only byte strings it accepts beyond those begin with a wire `nil`, read as the empty set -/
+theorem decodeCavsTopLevel_cases (fuel : Nat) (bs : Bytes) (cs : List (Cav Bytes))
+    (h : decodeCavsTopLevel fuel bs = some cs) :
+    decodeCavs fuel bs = some cs ∨ (cs = [] ∧ ∃ rest, dec fuel bs = some (.nil, rest)) := by
+  unfold decodeCavsTopLevel at h
+  split at h
+  · next r hd =>
+    right
+    exact ⟨by cases h; rfl, r, hd⟩
+  · exact Or.inl h
+
+/-- `reencode_fixed_point` for `DecodeCaveats` as a caller sees it (outermost `nil` included): whatever
+byte string is accepted, the decoded set is well formed and its canonical encoding — what gets MACed —
+decodes to the very same set -/
+theorem reencode_fixed_point_top (fuel : Nat) (bs : Bytes) (cs : List (Cav Bytes))
+    (h : decodeCavsTopLevel fuel bs = some cs) (henc : ∀ c ∈ cs, encodable c = true) :
+    (∀ c ∈ cs, WFCav c = true) ∧
+      ∀ fuel' rest, fuel + 2 ≤ fuel' → decodeCavsTopLevel fuel' (encCavSet cs ++ rest) = some cs := by
+  rcases decodeCavsTopLevel_cases fuel bs cs h with h' | ⟨rfl, _⟩
+  · obtain ⟨hw, hr⟩ := reencode_fixed_point fuel bs cs h' henc
+    exact ⟨hw, fun fuel' rest hf => decodeCavsTopLevel_of_decodeCavs _ _ _ (hr fuel' rest hf)⟩
+  · refine ⟨by simp, fun fuel' rest hf => ?_⟩
+    apply decodeCavsTopLevel_of_decodeCavs
+    exact decode_encode_cavs [] fuel' rest ⟨by simp, by decide⟩ (by
+      have : encDepth [] = 1 := by decide
+      omega)
+
+/-- the outermost `nil` is the empty set, and the empty set is written as the empty array -/
+theorem top_level_nil_is_empty_set (fuel : Nat) (rest : Bytes) (hf : 0 < fuel) :
+    decodeCavsTopLevel fuel (0xc0 :: rest) = some [] ∧ decodeCavs fuel (0xc0 :: rest) = none ∧
+      encCavSet [] = [0x90] := by
+  obtain ⟨n, rfl⟩ : ∃ n, fuel = n + 1 := ⟨fuel - 1, by omega⟩
+  refine ⟨?_, ?_, by decide⟩
+  · simp [decodeCavsTopLevel, dec]
+  · simp [decodeCavs, dec, Dec.cavsOfV, Dec.fail, Except.toOption]
+
 /-! ### unknown caveat types pass through byte for byte -/
 
 /-- For a type number that is not registered and a body `v` (any well-formed, non-nil value the
@@ -318,6 +367,10 @@ end Macaroon.Props.C11
 #print axioms Macaroon.Props.C11.encode_injective
 #print axioms Macaroon.Props.C11.reencode_fixed_point
 #print axioms Macaroon.Props.C11.reencode_stable
+#print axioms Macaroon.Props.C11.decodeCavsTopLevel_of_decodeCavs
+#print axioms Macaroon.Props.C11.decodeCavsTopLevel_cases
+#print axioms Macaroon.Props.C11.reencode_fixed_point_top
+#print axioms Macaroon.Props.C11.top_level_nil_is_empty_set
 #print axioms Macaroon.Props.C11.reencode_fixed_point_mac
 #print axioms Macaroon.Props.C11.reencode_fixed_point_ticket
 #print axioms Macaroon.Props.C11.unregistered_passthrough
